@@ -255,12 +255,12 @@ def roundTripsQ2 (d : Gen.D) (q : Query) : Bool :=
   match pSelectStmt d (20 * sizeL (toksQ2 d noX q) + 9) none (toksQ2 d noX q) with
   | .ok (p, []) => Drv.showVal p.toVal == Drv.showVal q.toVal
   | _ => false
-def sel2 (cols : List (Expr × Option String)) (fr : Option (List FromTable)) (wh : Option Expr := none) (js : List Join := [])
+def q2sel2 (cols : List (Expr × Option String)) (fr : Option (List FromTable)) (wh : Option Expr := none) (js : List Join := [])
     (gb : Option GroupBy := none) (ob : Option (List OrderItem) := none) (lats : List Lateral := []) (sb : Option (List OrderItem) := none)
     (db cb : Option (List Expr) := none) : Select :=
   .mk (some []) false cols fr lats js wh gb none ob sb db cb none
 /-- window functions with every kind of frame bound, CAST with parameters, EXTRACT, IF -/
-def w1 : Query := .single (sel2
+def q2w1 : Query := .single (q2sel2
   [(.window (.func none "row_number" []) [col "a", col "b"] [.mk (col "c") true false true, .mk (col "e") false true false]
       (some (.num 0 true, .current)), some "rn"),
    (.window (.agg "sum" [col "x"] false) [] [.mk (col "c") false false false] (some (.unbounded true, .num 3 false)), none),
@@ -270,37 +270,37 @@ def w1 : Query := .single (sel2
    (.extract (col "year") (col "ts"), none), (.func none "IF" [.compare "GT" (col "a") (lit "0"), lit "1", lit "2"], none)]
   (some [tb "t"]))
 /-- USING, GROUPING SETS with the four shapes of a set, WITH CUBE / ROLLUP, NULLS -/
-def w2 : Query := .single (sel2 [(col "a", none), (.agg "count" [.wildcard none] false, some "n")] (some [tb "t" (some "x")]) none
+def q2w2 : Query := .single (q2sel2 [(col "a", none), (.agg "count" [.wildcard none] false, some "n")] (some [tb "t" (some "x")]) none
   [.mk "LEFT_JOIN" (tb "u" (some "y")) (some (.using (.func none "USING" [col "a", col "b"])))]
   (some (.mk [col "a", col "b"] (some [[], [col "a"], [.subQuery qa], [col "a", .compute (col "b") "PLUS" (lit "1")]]) true true))
   (some [.mk (col "a") true true false, .mk (col "b") false false true]))
-def w2b : Query := .single (sel2 [(col "a", none)] (some [tb "t"]) none [] (some (.mk [] (some [[col "a"], [col "b"]]) false false)))
-def w2c : Query := .single (sel2 [(col "a", none)] (some [tb "t"]) none [] (some (.mk [col "a"] none false true)))
+def q2w2b : Query := .single (q2sel2 [(col "a", none)] (some [tb "t"]) none [] (some (.mk [] (some [[col "a"], [col "b"]]) false false)))
+def q2w2c : Query := .single (q2sel2 [(col "a", none)] (some [tb "t"]) none [] (some (.mk [col "a"] none false true)))
 /-- LATERAL VIEW [OUTER], the Hive clauses, an array index -/
-def w3 : Query := .single (sel2 [(.index (col "a") (lit "1"), some "f"), (.index (.func none "split" [col "s", lit "','"]) (.compute (col "i") "PLUS" (lit "1")), none),
+def q2w3 : Query := .single (q2sel2 [(.index (col "a") (lit "1"), some "f"), (.index (.func none "split" [col "s", lit "','"]) (.compute (col "i") "PLUS" (lit "1")), none),
     (.index (.column (some "t") "m") (lit "'k'"), none)]
   (some [tb "t"]) (some (.compare "GT" (col "x") (lit "0"))) [.mk "JOIN" (tb "u") (some (.on (.compare "EQ" (col "a") (col "b"))))] none none
   [.mk false (.func none "explode" [col "arr"]) "v" ["x"], .mk true (.func none "posexplode" [col "m"]) "w" ["k", "val"]]
   (some [.mk (col "a") true false false]) (some [col "a", col "b"]) (some [col "c"]))
-def w4 : Query := .union (some []) (sel2 [(.window (.func none "rank" []) [] [.mk (col "c") false false false] none, none)]
-    (some [.mk (.sub w2c) (some "d")])) [("UNION_ALL", sel2 [(.cast (col "a") false "BIGINT" none, none)] none)]
-#guard [w1, w2, w2b, w2c, w4].all (agreesQ2 .MYSQL) && [w1, w2, w2b, w2c, w3, w4].all (agreesQ2 .HIVE) && [w1, w2, w4].all (agreesQ2 .ORACLE) &&
-  [w1, w2, w2c, w4].all (agreesQ2 .DEFAULT) && [w1, w2].all (agreesQ2 .POSTGRE_SQL)
-#guard [w1, w2, w2b, w2c, w3, w4].all (roundTripsQ2 .MYSQL) && [w1, w2, w2b, w2c, w3, w4].all (roundTripsQ2 .HIVE) && [w1, w2, w3].all (roundTripsQ2 .DB2)
+def q2w4 : Query := .union (some []) (q2sel2 [(.window (.func none "rank" []) [] [.mk (col "c") false false false] none, none)]
+    (some [.mk (.sub q2w2c) (some "d")])) [("UNION_ALL", q2sel2 [(.cast (col "a") false "BIGINT" none, none)] none)]
+#guard [q2w1, q2w2, q2w2b, q2w2c, q2w4].all (agreesQ2 .MYSQL) && [q2w1, q2w2, q2w2b, q2w2c, q2w3, q2w4].all (agreesQ2 .HIVE) && [q2w1, q2w2, q2w4].all (agreesQ2 .ORACLE) &&
+  [q2w1, q2w2, q2w2c, q2w4].all (agreesQ2 .DEFAULT) && [q2w1, q2w2].all (agreesQ2 .POSTGRE_SQL)
+#guard [q2w1, q2w2, q2w2b, q2w2c, q2w3, q2w4].all (roundTripsQ2 .MYSQL) && [q2w1, q2w2, q2w2b, q2w2c, q2w3, q2w4].all (roundTripsQ2 .HIVE) && [q2w1, q2w2, q2w3].all (roundTripsQ2 .DB2)
 -- the printer refuses the Hive constructs for other dialects (C13.printable_iff); the token-level theorem holds for every dialect
-#guard (match PR.prQ .MYSQL w3 with | .error _ => true | .ok _ => false) && FragQ2 .MYSQL w3
+#guard (match PR.prQ .MYSQL q2w3 with | .error _ => true | .ok _ => false) && FragQ2 .MYSQL q2w3
 -- what may follow: the continuations of the old development, e.g. `;`
 #guard stopsQ2 .MYSQL (lexed "; SELECT 2") && stopsQ2 .MYSQL [] && !stopsQ2 .MYSQL (lexed "SORT BY a") && !stopsQ2 .MYSQL (lexed "LATERAL VIEW f(x) t AS a")
 -- outside the fragment: both NULLS phrases, a negative frame bound, a window over a qualified call, an index on an index
-#guard !FragQ2 .HIVE (.single (sel2 [(col "a", none)] none none [] none (some [.mk (col "a") false true true]))) &&
+#guard !FragQ2 .HIVE (.single (q2sel2 [(col "a", none)] none none [] none (some [.mk (col "a") false true true]))) &&
   !FragE4 .HIVE (.window (.func none "f" []) [] [] (some (.num (-1) true, .current))) &&
   !FragE4 .HIVE (.window (.func (some "s") "f" []) [] [] none) && !FragE4 .HIVE (.index (.index (col "a") (lit "1")) (lit "2"))
 -- F-C09-2 as seen by the fragment: the spelling of USING is part of the tree, both spellings are in the fragment and parse to different trees
-#guard FragQ2 .MYSQL (.single (sel2 [(col "a", none)] (some [tb "t"]) none [.mk "JOIN" (tb "u") (some (.using (.func none "using" [col "a"])))])) &&
+#guard FragQ2 .MYSQL (.single (q2sel2 [(col "a", none)] (some [tb "t"]) none [.mk "JOIN" (tb "u") (some (.using (.func none "using" [col "a"])))])) &&
   (match pSelectStmt .MYSQL 2000 none (lexed "SELECT a FROM t JOIN u using(a)"), pSelectStmt .MYSQL 2000 none (lexed "SELECT a FROM t JOIN u USING(a)") with
    | .ok (p, []), .ok (p', []) => Drv.showVal p.toVal != Drv.showVal p'.toVal | _, _ => false)
 -- instances of the theorems (hypotheses decided by the kernel, conclusions the theorems')
 set_option maxRecDepth 100000 in
-example : pSelectStmt .HIVE (fuelFor (toksQ2 .HIVE noX w2c ++ lexed "; x")) none (toksQ2 .HIVE noX w2c ++ lexed "; x") = .ok (w2c, lexed "; x") :=
-  tquery2_entry_fuel .HIVE w2c (by decide) _ (by decide)
+example : pSelectStmt .HIVE (fuelFor (toksQ2 .HIVE noX q2w2c ++ lexed "; x")) none (toksQ2 .HIVE noX q2w2c ++ lexed "; x") = .ok (q2w2c, lexed "; x") :=
+  tquery2_entry_fuel .HIVE q2w2c (by decide) _ (by decide)
 end C03
